@@ -116,6 +116,7 @@ class Polarization(BaseState):
         then it gets expanded to density matrix
         """
         from photon_weave.state.composite_envelope import CompositeEnvelope
+        from photon_weave.state.envelope import Envelope
 
         # If the state is in composite envelope expand the product space there
         if isinstance(self.index, tuple) or isinstance(self.index, list):
@@ -163,6 +164,7 @@ class Polarization(BaseState):
         tol: float
             Tolerance when comparing matrices
         """
+        from photon_weave.state.composite_envelope import CompositeEnvelope
         from photon_weave.state.envelope import Envelope
 
         # If state was measured, then do nothing
@@ -282,6 +284,7 @@ class Polarization(BaseState):
             Measurement Outcome
         """
         from photon_weave.state.composite_envelope import CompositeEnvelope
+        from photon_weave.state.envelope import Envelope
 
         # If the state is in the envelope, measure there
         if isinstance(self.index, int):
